@@ -53,6 +53,7 @@
 #include "media.h"           // for AbstractImageFile, make_hfe_file
 #include "storage.h"         // for DriveConfig, DriveAllocation, AbstractDrive
 #include "track.h"           // for Sector, SectorAddress, IbmFmDecoder, ...
+#include "verif_hooks.h"     // for BEEBTOOLS_VERIF_TRACE
 
 #undef ULTRA_VERBOSE
 //#define ULTRA_VERBOSE 1
@@ -353,6 +354,9 @@ public:
       std::vector<Sector>::const_iterator it = find_sector(addr);
       if (it != sectors_.cend())
 	{
+	  BEEBTOOLS_VERIF_TRACE("X %u %lu %u,%u,%u found\n", side_, lba,
+				it->address.cylinder, it->address.head,
+				it->address.record);
 	  DFS::SectorBuffer buf;
 	  std::copy(it->data.begin(), it->data.end(), buf.begin());
 	  return buf;
@@ -856,6 +860,14 @@ HfeFile::read_all_sectors(const std::vector<PicTrack>& lut,
       auto decoder = (is_fm ? decode_fm_track : decode_mfm_track);
       const std::vector<Sector> track_sectors = sorted_sectors(decoder(bits, DFS::verbose));
 
+#ifdef BEEBTOOLS_VERIF
+      for (const Sector& s : track_sectors)
+	{
+	  BEEBTOOLS_VERIF_TRACE("Y %u %u %u,%u,%u %u %02x%02x\n", track, side,
+				s.address.cylinder, s.address.head, s.address.record,
+				static_cast<unsigned>(s.data.size()), s.crc[0], s.crc[1]);
+	}
+#endif
       if (DFS::verbose)
 	{
 	  std::cerr << "Found " << track_sectors.size() << " sectors on track "
